@@ -46,7 +46,7 @@ def gen_cases(tier, seed):
             o.update(dt_init=float(rng.choice([2.0, 5.0])), dt_max=10.0, solve_time=30.0, adaptive_time_step_multiplier=0.9, max_solve_retries=int(rng.choice([0, 1, 3])))
             b = 0.8
         elif kind == "fixed":
-            o.update(adaptive=False, dt_init=0.004, dt_max=0.1, solve_time=0.5)
+            o.update(adaptive=False, dt_init=0.004, dt_max=0.1, solve_time=0.5, auto_dt={"steps": 120, "frac": 0.3})
         elif kind == "fixed_exhaust":
             o.update(adaptive=False, dt_init=3.0, dt_max=5.0, solve_time=30.0)
             b = 0.8
